@@ -7,12 +7,13 @@ package main
 import (
 	"errors"
 	"fmt"
-	"os"
 	"runtime"
 	"sort"
 	"strconv"
 	"strings"
+	"syscall"
 	"time"
+	"unsafe"
 
 	"github.com/richardwilkes/toolbox/errs"
 	"verifharness/hx"
@@ -45,7 +46,10 @@ func isNilish(v error) bool {
 }
 
 type errsArea struct {
-	vars map[int]error
+	vars     map[int]error
+	stacks   map[*uintptr]string // first cell of a recorded stack -> the harness function that created the error
+	wflag    map[*uintptr]bool   // first cell of a recorded stack -> the error renders no cause section (wrapped)
+	poisoned bool
 }
 
 func (a *errsArea) get(w string) error {
@@ -77,7 +81,7 @@ func (a *errsArea) same(ks []int, v error) string {
 	return "#?"
 }
 
-func nodeDesc(n *errs.Error) string {
+func (a *errsArea) nodeDesc(n *errs.Error) string {
 	var sb strings.Builder
 	sb.WriteString(hx.Hex([]byte(n.Message())))
 	sb.WriteByte('.')
@@ -87,8 +91,21 @@ func nodeDesc(n *errs.Error) string {
 	c := n.Unwrap()
 	if c != nil {
 		sb.WriteByte('c')
-		// the `wrapped` flag is visible only through the absence of the "Caused by" section
-		if !strings.Contains(n.StackTrace(true), "\n  Caused by: ") {
+		// the `wrapped` flag is visible only through the absence of the "Caused by" section; it is fixed when the error
+		// is created and copies share the recorded stack, so the answer is remembered per stack (big aggregates would
+		// otherwise be symbolised again on every line)
+		var key *uintptr
+		if st := n.RawStackTrace(); len(st) != 0 {
+			key = unsafe.SliceData(st)
+		}
+		w, known := a.wflag[key]
+		if !known || key == nil {
+			w = !strings.Contains(n.StackTrace(true), "\n  Caused by: ")
+			if key != nil {
+				a.wflag[key] = w
+			}
+		}
+		if w {
 			sb.WriteByte('w')
 		}
 	}
@@ -124,7 +141,7 @@ func (a *errsArea) desc(ks []int, v error) string {
 				sb.WriteString("?")
 				continue
 			}
-			sb.WriteString(nodeDesc(we))
+			sb.WriteString(a.nodeDesc(we))
 		}
 		sb.WriteByte(']')
 		return sb.String()
@@ -142,7 +159,7 @@ func (a *errsArea) desc(ks []int, v error) string {
 
 // renderAll renders an error with every verb and accessor and checks that the renderings agree with each other
 // (a panic is caught by the caller and becomes the output `panic`).
-func renderAll(e *errs.Error) string {
+func (a *errsArea) renderAll(e *errs.Error) string {
 	msg := e.Message()
 	v, pv := fmt.Sprintf("%v", e), fmt.Sprintf("%+v", e)
 	switch {
@@ -159,8 +176,75 @@ func renderAll(e *errs.Error) string {
 	case errors.Unwrap(e) == nil && strings.Contains(e.StackTrace(true), "\n  Caused by: "):
 		return "FAIL-render Caused by without a cause"
 	}
+	// every contained error still names the harness function that created it, however many errors were created
+	// elsewhere since (the stack of an error is its own)
+	ws := e.WrappedErrors()
+	for i, w := range ws {
+		if i >= 24 && i < len(ws)-24 && i%37 != 0 {
+			continue // big aggregates: both ends and a sample
+		}
+		we, ok := w.(*errs.Error)
+		if !ok || we == nil {
+			return "FAIL-render WrappedErrors element is not an *Error"
+		}
+		st := we.RawStackTrace()
+		if len(st) == 0 {
+			continue
+		}
+		want, known := a.stacks[unsafe.SliceData(st)]
+		if !known {
+			continue
+		}
+		text := we.StackTrace(true)
+		if !strings.HasPrefix(text, "    [main."+want+"] ") {
+			line, _, _ := strings.Cut(text, "\n")
+			return "FAIL-render element " + strconv.Itoa(i) + " was created in main." + want + " but its stack starts with " +
+				strings.ReplaceAll(strings.TrimSpace(line), " ", "_")
+		}
+		if i == 0 && !strings.Contains("\n"+v, "\n    [main."+want+"] ") {
+			return "FAIL-render %v does not name main." + want
+		}
+	}
 	return ""
 }
+
+// register remembers which harness function created the stacks that appear for the first time in the value.
+func (a *errsArea) register(v error, creator string) {
+	e, ok := v.(*errs.Error)
+	if !ok || e == nil || creator == "" {
+		return
+	}
+	for _, w := range e.WrappedErrors() {
+		if we, ok2 := w.(*errs.Error); ok2 && we != nil {
+			if st := we.RawStackTrace(); len(st) != 0 {
+				if _, seen := a.stacks[unsafe.SliceData(st)]; !seen {
+					a.stacks[unsafe.SliceData(st)] = creator
+				}
+			}
+		}
+	}
+}
+
+//go:noinline
+func mkNew(msg string) *errs.Error { return errs.New(msg) }
+
+//go:noinline
+func mkNewf(msg string) *errs.Error { return errs.Newf("%s", msg) }
+
+//go:noinline
+func mkCause(msg string, c error) *errs.Error { return errs.NewWithCause(msg, c) }
+
+//go:noinline
+func mkCausef(msg string, c error) *errs.Error { return errs.NewWithCausef(c, "%s", msg) }
+
+//go:noinline
+func mkAppend(acc error, rest ...error) *errs.Error { return errs.Append(acc, rest...) }
+
+//go:noinline
+func mkWrap(c error) error { return errs.Wrap(c) }
+
+//go:noinline
+func mkWrapTyped(c error) *errs.Error { return errs.WrapTyped(c) }
 
 func (a *errsArea) dump() string {
 	ks := a.keys()
@@ -172,30 +256,51 @@ func (a *errsArea) dump() string {
 }
 
 // Run executes one line under a watchdog: a defective Append can build a cyclic chain, on which the library's own
-// loops (Count, the cursor walk, the argument copy) never end or allocate without bound.  The process then dies and the
-// check attributes the death to this line.
+// loops (Count, the cursor walk, the argument copy) never end or allocate without bound.  The watchdog looks at the CPU
+// time the process burns while the line runs (a starved process on a loaded machine burns none, a spinning loop burns
+// all of it), answers `hang` and gives every later line of the stream the token `skipped-after-crash`, so that a
+// hanging mutant costs a fraction of a second per stream instead of a process restart per history.
 func (a *errsArea) Run(line string) string {
+	if a.poisoned {
+		return "skipped-after-crash"
+	}
 	done := make(chan string, 1)
 	go func() { done <- hx.Safe(func() string { return a.exec(line) }) }()
-	deadline := time.Now().Add(2 * time.Second)
+	select {
+	case out := <-done: // the common case: no timer at all
+		return out
+	case <-time.After(5 * time.Millisecond):
+	}
+	cpu0, t0 := cpuTime(), time.Now()
 	for {
 		select {
 		case out := <-done:
 			return out
-		case <-time.After(10 * time.Millisecond):
+		case <-time.After(5 * time.Millisecond):
 			var ms runtime.MemStats
 			runtime.ReadMemStats(&ms)
-			if ms.HeapAlloc > 1<<30 || time.Now().After(deadline) {
-				os.Exit(7)
+			if ms.HeapAlloc > 1<<30 || cpuTime()-cpu0 > time.Second || time.Since(t0) > 20*time.Second {
+				a.poisoned = true
+				return "hang"
 			}
 		}
 	}
+}
+
+func cpuTime() time.Duration {
+	var ru syscall.Rusage
+	if err := syscall.Getrusage(syscall.RUSAGE_SELF, &ru); err != nil {
+		return 0
+	}
+	return time.Duration(ru.Utime.Nano() + ru.Stime.Nano())
 }
 
 func (a *errsArea) exec(line string) string {
 	f := strings.Fields(line)
 	if len(f) == 1 && f[0] == "reset" {
 		a.vars = map[int]error{}
+		a.stacks = map[*uintptr]string{}
+		a.wflag = map[*uintptr]bool{}
 		return "reset"
 	}
 	if len(f) < 3 || f[1] != "=" || !strings.HasPrefix(f[0], "v") {
@@ -204,6 +309,13 @@ func (a *errsArea) exec(line string) string {
 	if a.vars == nil {
 		a.vars = map[int]error{}
 	}
+	if a.stacks == nil {
+		a.stacks = map[*uintptr]string{}
+	}
+	if a.wflag == nil {
+		a.wflag = map[*uintptr]bool{}
+	}
+	creator := ""
 	k := varIx(f[0])
 	args := f[3:]
 	var res error
@@ -219,13 +331,13 @@ func (a *errsArea) exec(line string) string {
 	case f[2] == "plain" && len(args) == 1:
 		res = errors.New(string(hx.UnHex(args[0])))
 	case f[2] == "new" && len(args) == 1:
-		res = errs.New(string(hx.UnHex(args[0])))
+		res, creator = mkNew(string(hx.UnHex(args[0]))), "mkNew"
 	case f[2] == "newf" && len(args) == 1:
-		res = errs.Newf("%s", string(hx.UnHex(args[0])))
+		res, creator = mkNewf(string(hx.UnHex(args[0]))), "mkNewf"
 	case f[2] == "cause" && len(args) == 2:
-		res = errs.NewWithCause(string(hx.UnHex(args[0])), a.get(args[1]))
+		res, creator = mkCause(string(hx.UnHex(args[0])), a.get(args[1])), "mkCause"
 	case f[2] == "causef" && len(args) == 2:
-		res = errs.NewWithCausef(a.get(args[1]), "%s", string(hx.UnHex(args[0])))
+		res, creator = mkCausef(string(hx.UnHex(args[0])), a.get(args[1])), "mkCausef"
 	case f[2] == "fwrap" && len(args) == 2:
 		res = &fwrap{msg: string(hx.UnHex(args[0])), inner: a.get(args[1])}
 	case f[2] == "append" && len(args) >= 1:
@@ -233,11 +345,11 @@ func (a *errsArea) exec(line string) string {
 		for _, w := range args[1:] {
 			rest = append(rest, a.get(w))
 		}
-		res = errs.Append(a.get(args[0]), rest...)
+		res, creator = mkAppend(a.get(args[0]), rest...), "mkAppend"
 	case f[2] == "wrap" && len(args) == 1:
-		res = errs.Wrap(a.get(args[0]))
+		res, creator = mkWrap(a.get(args[0])), "mkWrap"
 	case f[2] == "wraptyped" && len(args) == 1:
-		res = errs.WrapTyped(a.get(args[0]))
+		res, creator = mkWrapTyped(a.get(args[0])), "mkWrapTyped"
 	case f[2] == "unwrap" && len(args) == 1:
 		if v := a.get(args[0]); !isNilish(v) {
 			res = errors.Unwrap(v)
@@ -245,8 +357,15 @@ func (a *errsArea) exec(line string) string {
 	case f[2] == "render" && len(args) == 1:
 		res = a.get(args[0])
 		if e, ok := res.(*errs.Error); ok && e != nil {
-			if fail := renderAll(e); fail != "" {
+			if fail := a.renderAll(e); fail != "" {
 				return fail
+			}
+		}
+	case f[2] == "elem" && len(args) == 2:
+		// element i of WrappedErrors(): a detached copy, which later calls use as accumulator or argument
+		if e, ok := a.get(args[0]).(*errs.Error); ok && e != nil {
+			if ws, i := e.WrappedErrors(), hx.Atoi(args[1]); i < len(ws) {
+				res = ws[i]
 			}
 		}
 	case f[2] == "eon" && len(args) == 1:
@@ -261,6 +380,7 @@ func (a *errsArea) exec(line string) string {
 		return "bad-op"
 	}
 	a.vars[k] = res
+	a.register(res, creator)
 	return a.dump()
 }
 
